@@ -859,7 +859,7 @@ theorem settingsCols_pickle (ident : Nat → Nat) (cols : List (Path × List (Na
 theorem pickleCodec_lawful (c : Cfg) (hg : c.good = true) (ident : Nat → Nat) : (pickleCodec c ident).Lawful := by
   intro e
   have hres : c.decoderResolvesRefs = true := by
-    simp only [Cfg.good, Bool.and_eq_true] at hg; exact hg.1
+    simp only [Cfg.good, Bool.and_eq_true] at hg; exact hg.1.1
   obtain ⟨id, timeout, step, stored⟩ := e
   cases stored with
   | plain s =>
@@ -898,7 +898,10 @@ def C19_full_cfg (c : Cfg) : Prop :=
   -- step-advancing request the state file holds exactly the live session, and that session is a reachable one
   -- (so the clauses above say that loading the file restores it)
   (∀ (reqs : List Req) (ops : List StepOp) (s : Session), (runReqs c (reqs ++ [.steps ops])).session = some s →
-    (runReqs c (reqs ++ [.steps ops])).file = some s ∧ ∃ spec ops', s = run spec ops')
+    (runReqs c (reqs ++ [.steps ops])).file = some s ∧ ∃ spec ops', s = run spec ops') ∧
+  -- wave 6: the restore installs the decoded session as it is — in particular the restored clock IS the saved clock, for
+  -- every start time and dt (the codec side is the identity on `step`: `StateEq.step`, `SessionEq.step` above)
+  (∀ s : Session, setState c s = s)
 
 theorem stepReq_live_is_run (c : Cfg) (st : IState) (rq : Req)
     (h : ∀ s, st.session = some s → ∃ spec ops, s = run spec ops) :
@@ -943,8 +946,26 @@ theorem file_is_live (c : Cfg) (hs : c.saveAfterEveryStepRequest = true) (reqs :
 
 theorem C19_full_of_good (c : Cfg) (h : c.good = true) : C19_full_cfg c :=
   ⟨C19_full_holds, fun ident compress => C19_full_holds _ _ (pickleCodec_lawful c h ident) compress,
-   fun reqs ops s hs => ⟨file_is_live c (by simp only [Cfg.good, Bool.and_eq_true] at h; exact h.2) reqs ops s hs,
-     runReqs_live_is_run c _ s hs⟩⟩
+   fun reqs ops s hs => ⟨file_is_live c (by simp only [Cfg.good, Bool.and_eq_true] at h; exact h.1.2) reqs ops s hs,
+     runReqs_live_is_run c _ s hs⟩,
+   fun s => by
+     have hk : c.restoreKeepsClock = true := by simp only [Cfg.good, Bool.and_eq_true] at h; exact h.2
+     simp [setState, hk]⟩
+
+/-- a session at dt 0.125 after three steps: clock 0.375 -/
+def eighthSpec : RunSpec := { paths := [0], start := 0, dt := 80000, stop := 6400000 }
+def threeSteps : List StepOp := [⟨some [], fun _ => "1.0"⟩, ⟨some [], fun _ => "2.0"⟩, ⟨some [], fun _ => "3.0"⟩]
+
+/-- a restore that re-normalises the clock to two decimals moves 0.375 to 0.38 (logs untouched) -/
+theorem C19_witness_rounding_restore (c : Cfg) (h : c.restoreKeepsClock = false) : ¬ C19_full_cfg c := by
+  intro hf
+  have h4 := hf.2.2.2 (run eighthSpec threeSteps)
+  simp only [setState, h] at h4
+  exact absurd (congrArg Session.step h4) (by decide)
+
+example : (run eighthSpec threeSteps).step = 240000 := by decide
+example : roundTo centi 240000 = 243200 := by decide                     -- 0.375 ↦ 0.38
+example : roundTo centi (run eighthSpec (threeSteps ++ threeSteps.take 1)).step = 320000 := by decide   -- 0.5: even step counts hide it
 
 def sessA : RunSpec := { paths := [0], start := 2048, dt := 512, stop := 10240 }
 def sessB : RunSpec := { paths := [3, 4], start := 2048, dt := 512, stop := 10240 }
@@ -955,20 +976,18 @@ managers / equations) taken by `run-steps` to the clock position written last is
 first session. -/
 theorem C19_witness_skip_save (c : Cfg) (h : c.saveAfterEveryStepRequest = false) : ¬ C19_full_cfg c := by
   intro hf
-  obtain ⟨r, sv⟩ := c
+  obtain ⟨r, sv, k⟩ := c
   simp only at h
   subst h
-  have h3 := hf.2.2 [.beginSession sessA, .steps twoSteps, .beginSession sessB] twoSteps (run sessB twoSteps)
-  cases r
-  · exact absurd (h3 (by decide)).1 (by decide)
-  · exact absurd (h3 (by decide)).1 (by decide)
+  have h3 := hf.2.2.1 [.beginSession sessA, .steps twoSteps, .beginSession sessB] twoSteps (run sessB twoSteps)
+  cases r <;> cases k <;> exact absurd (h3 (by decide)).1 (by decide)
 
 /-- what the file holds in that history, and that single steps never show it (the clock moves with every step) -/
-example : (runReqs ⟨true, false⟩ [.beginSession sessA, .steps twoSteps, .beginSession sessB, .steps twoSteps]).file
+example : (runReqs ⟨true, false, true⟩ [.beginSession sessA, .steps twoSteps, .beginSession sessB, .steps twoSteps]).file
     = some (run sessA twoSteps) := by decide
-example : (runReqs ⟨true, false⟩ [.beginSession sessA, .steps twoSteps, .endSession, .beginSession sessB, .steps twoSteps]).file
+example : (runReqs ⟨true, false, true⟩ [.beginSession sessA, .steps twoSteps, .endSession, .beginSession sessB, .steps twoSteps]).file
     = some (run sessA twoSteps) := by decide
-example : (runReqs ⟨true, false⟩ [.beginSession sessA, .steps (twoSteps.take 1), .steps (twoSteps.drop 1), .beginSession sessB,
+example : (runReqs ⟨true, false, true⟩ [.beginSession sessA, .steps (twoSteps.take 1), .steps (twoSteps.drop 1), .beginSession sessB,
       .steps (twoSteps.take 1), .steps (twoSteps.drop 1)]).file
     = some (run sessB twoSteps) := by decide
 
@@ -983,19 +1002,19 @@ settings object was logged for two steps: the second entry comes back as `{"py/i
 theorem C19_witness_plain_reader (c : Cfg) (h : c.decoderResolvesRefs = false) : ¬ C19_full_cfg c := by
   intro hf
   obtain ⟨st', hl, _⟩ := (hf.2.1 (fun _ => 0) false).1 shareSpec shareOps 0 0 (fun _ => none)
-  obtain ⟨r, sv⟩ := c
+  obtain ⟨r, sv, k⟩ := c
   simp only at h
   subst h
-  have : loadInstance (pickleCodec ⟨false, sv⟩ (fun _ => 0))
-      (saveInstance (pickleCodec ⟨false, sv⟩ (fun _ => 0)) false (fun _ => none) (instanceState 0 0 (run shareSpec shareOps))) 0
-      = none := by cases sv <;> decide +kernel
+  have : loadInstance (pickleCodec ⟨false, sv, k⟩ (fun _ => 0))
+      (saveInstance (pickleCodec ⟨false, sv, k⟩ (fun _ => 0)) false (fun _ => none) (instanceState 0 0 (run shareSpec shareOps))) 0
+      = none := by cases sv <;> cases k <;> decide +kernel
   rw [this] at hl
   cases hl
 
 /-- the same in compressed mode with a list-valued setting: the value of the second column entry is a back-reference -/
 theorem C19_witness_plain_reader_compressed :
-    loadInstance (pickleCodec ⟨false, true⟩ (fun _ => 0))
-      (saveInstance (pickleCodec ⟨false, true⟩ (fun _ => 0)) true (fun _ => none) (instanceState 0 0 (run shareSpec sharePointsOps))) 0
+    loadInstance (pickleCodec ⟨false, true, true⟩ (fun _ => 0))
+      (saveInstance (pickleCodec ⟨false, true, true⟩ (fun _ => 0)) true (fun _ => none) (instanceState 0 0 (run shareSpec sharePointsOps))) 0
       = none := by decide +kernel
 
 theorem decode_noRef (r : Bool) (j : J) (hn : noRef j = true) : decode r j = decode true j := by
@@ -1007,7 +1026,7 @@ theorem decode_noRef (r : Bool) (j : J) (hn : noRef j = true) : decode r j = dec
 back-reference (no settings object logged twice, e.g. only `run-step` requests over HTTP) is read back. -/
 theorem C19_partial_cfg (c : Cfg) (ident : Nat → Nat) (e : Envelope) (hn : noRef (settingsJ ident e.stored) = true) :
     (pickleCodec c ident).dec ((pickleCodec c ident).enc e) = some e := by
-  have hgood := pickleCodec_lawful ⟨true, true⟩ rfl ident e
+  have hgood := pickleCodec_lawful ⟨true, true, true⟩ rfl ident e
   simp only [pickleCodec] at hgood ⊢
   rw [decode_noRef _ _ hn]
   exact hgood
@@ -1015,8 +1034,8 @@ theorem C19_partial_cfg (c : Cfg) (ident : Nat → Nat) (e : Envelope) (hn : noR
 /-- non-vacuity: the back-reference really is in the written text, and the unpickler restores both modes -/
 example : noRef (settingsJ (fun _ => 0) (store false (run shareSpec shareOps))) = false := by decide +kernel
 example : noRef (settingsJ (fun _ => 0) (store true (run shareSpec sharePointsOps))) = false := by decide +kernel
-example : loadInstance (pickleCodec ⟨true, true⟩ (fun _ => 0))
-      (saveInstance (pickleCodec ⟨true, true⟩ (fun _ => 0)) true (fun _ => none) (instanceState 0 0 (run shareSpec sharePointsOps))) 0
+example : loadInstance (pickleCodec ⟨true, true, true⟩ (fun _ => 0))
+      (saveInstance (pickleCodec ⟨true, true, true⟩ (fun _ => 0)) true (fun _ => none) (instanceState 0 0 (run shareSpec sharePointsOps))) 0
       = some (instanceState 0 0 (unstore (store true (run shareSpec sharePointsOps)))) := by decide +kernel
 
 /-! ### non-vacuity and the shapes named in the statement -/
@@ -1061,5 +1080,6 @@ example : (compressSettings (run demoSpec demoOps).settingsLog) =
 #print axioms file_is_live
 #print axioms runReqs_live_is_run
 #print axioms C19_witness_skip_save
+#print axioms C19_witness_rounding_restore
 
 end Bptk.C19
